@@ -303,3 +303,34 @@ func isParamValue(v ssa.Value, fn *ssa.Function) bool {
 	pa, ok := v.(*ssa.Parameter)
 	return ok && pa.Parent() == fn
 }
+
+// multiDecoderDrains checks that a multi-item stream decoder (a function calling the single
+// item decoder in a loop) reports success only once the remaining input is empty.
+func multiDecoderDrains(p *core.Prog, fn *ssa.Function) (bool, string) {
+	var call *ssa.Call
+	core.Calls(fn, func(ci ssa.CallInstruction) {
+		if g := core.StaticCalleeFn(ci); g != nil && len(core.CallsTo(g, lebDecode32)) > 0 {
+			if cc, ok := ci.(*ssa.Call); ok && core.InLoop(cc.Block()) {
+				call = cc
+			}
+		}
+	})
+	if call == nil {
+		return false, "no item decoder call in a loop"
+	}
+	arg := call.Call.Args[0]
+	lenZero := core.AnyFact(func(f core.Fact) bool {
+		return core.CmpFact(f, func(op token.Token, x, y ssa.Value) bool {
+			n, isC := core.ConstInt(y)
+			if !isC || !core.IsLenOf(x, func(v ssa.Value) bool { return v == arg }) {
+				return false
+			}
+			return (op == token.LEQ && n == 0) || (op == token.EQL && n == 0) || (op == token.LSS && n == 1)
+		})
+	})
+	w := core.CutReach(core.CutSpec{Fn: fn, Cut: func(b *ssa.BasicBlock, i int) bool { return lenZero(core.EdgeFacts(b, i)) }, Target: core.SuccessTarget(fn, nil)})
+	if w != nil {
+		return false, p.PathString(w)
+	}
+	return true, ""
+}
